@@ -227,7 +227,7 @@ pub fn unsuback_codes() -> &'static [u8] {
 pub fn disconnect_codes() -> &'static [u8] {
     &[
         0x00, 0x04, 0x80, 0x81, 0x82, 0x83, 0x87, 0x89, 0x8B, 0x8D, 0x8E, 0x8F, 0x90, 0x93, 0x94, 0x95,
-        0x96, 0x97, 0x98, 0x99, 0x9A, 0x9B, 0x9C, 0x9D, 0x9E, 0xA0, 0xA1, 0xA2,
+        0x96, 0x97, 0x98, 0x99, 0x9A, 0x9B, 0x9C, 0x9D, 0x9E, 0x9F, 0xA0, 0xA1, 0xA2,
     ]
 }
 pub fn auth_codes() -> &'static [u8] {
@@ -677,11 +677,10 @@ pub fn encode_body(p: &AP, w: usize) -> Vec<u8> {
             }
         }
         AP::Auth { code, props } => {
+            // §3.15.2.1: Reason Code and Property Length can only be omitted together
             if let Some(c) = code {
                 b.push(*c);
-                if let Some(ps) = props {
-                    b.extend_from_slice(&enc_props(ps));
-                }
+                b.extend_from_slice(&enc_props(props.as_deref().unwrap_or(&[])));
             }
         }
     }
@@ -1003,6 +1002,9 @@ pub fn decode_body(ver: Ver, ty: u8, flags: u8, body: &[u8], w: usize) -> Result
             }
             let (code, props) = if v5 && r.left() > 0 {
                 let c = r.u8()?;
+                if !disconnect_codes().contains(&c) {
+                    return Err("disconnect reason code".into());
+                }
                 let ps = if r.left() > 0 { Some(dec_props(&mut r, Loc::Disconnect)?) } else { None };
                 (Some(c), ps)
             } else {
@@ -1016,6 +1018,10 @@ pub fn decode_body(ver: Ver, ty: u8, flags: u8, body: &[u8], w: usize) -> Result
             }
             let (code, props) = if r.left() > 0 {
                 let c = r.u8()?;
+                if !auth_codes().contains(&c) {
+                    return Err("auth reason code".into());
+                }
+                // lenient: a Reason Code without Property Length is accepted like in DISCONNECT
                 let ps = if r.left() > 0 { Some(dec_props(&mut r, Loc::Auth)?) } else { None };
                 (Some(c), ps)
             } else {
